@@ -669,8 +669,10 @@ func main() {
 				js, _ := json.Marshal(map[string]interface{}{"case": h})
 				os.WriteFile(fmt.Sprintf("%s/h%d.json", os.Getenv("C08_DUMP"), k), js, 0644)
 			}
-			if len(errs) > 0 {
-				bad++
+			if len(errs) > 0 || os.Getenv("C08_OPS") != "" {
+				if len(errs) > 0 {
+					bad++
+				}
 				fmt.Printf("=== history %d (%s): %d problems\n", k, h.Kind, len(errs))
 				for i, m := range errs {
 					if i >= probeShow {
